@@ -229,8 +229,77 @@ def main():
                 npred += 1; failures["eitstar-edge"] += 1
                 if first_pred is None: first_pred = (el, "EIT*'s isValid() accepts (and whitelists) an edge of %d resolution segments that passes through an obstacle %.2f resolution lengths wide" % (F, (hi - lo) * F))
     c.cov.update({"eitstar_edge_histories": neit, "eitstar_edge_disagreements": neit_bad})
+    # (c) geometric::RRT as a whole against RrtModel.rrt_solve: scripted sampler, goal-bias draws from the RNG tape, linear nearest
+    #     neighbours, wall motion validator; the tree (states bit for bit, parents), the reported path, flag and difference must agree
+    try:
+        rdrv = c.build_driver("rrt_driver", link_ompl=True)
+    except vf.BuildError as ex:
+        c.broken.append("correspondence C01: rrt_driver does not build against /repo (RRT internals renamed?): " + str(ex)[-300:]); c.finish()
+    import math
+    def coord(grid): return rng.choice([-1.0, -0.5, -0.25, 0.0, 0.25, 0.5, 0.75, 1.0, 1.25]) if grid else round(rng.uniform(-1.5, 1.5), 3)
+    rlines = []
+    for i in range(400 if quick else 12000):
+        grid = rng.random() < 0.35
+        walls = [(coord(grid), ) for _ in range(rng.choice([0, 1, 1, 2, 3]))]
+        walls = [(w[0], lo, lo + rng.choice([0.25, 0.5, 1.0, 3.0])) for w in walls for lo in [coord(grid)]]
+        starts = [(coord(grid), coord(grid)) for _ in range(rng.choice([1, 1, 1, 2, 3]))]
+        g = (coord(grid), coord(grid)); npts = rng.choice([0, 1, 3, 8, 20, 60])
+        pts = [(coord(grid), coord(grid)) for _ in range(npts)]
+        if pts and rng.random() < 0.3: pts[rng.randrange(len(pts))] = g
+        rlines.append("RRT %g %g %g %d %d W %d %s S %d %s G %r %r P %d %s" % (rng.choice([0.1, 0.3, 0.5, 1.0, 10.0]), rng.choice([0.0, 0.05, 0.25, 0.5, 1.0]), rng.choice([0.0, 0.05, 0.2, 0.5]),
+                      rng.choice([0, 1, 5, 20, 80]), rng.randint(0, 10 ** 6), len(walls), " ".join("%r %r %r" % w for w in walls), len(starts), " ".join("%r %r" % q for q in starts), g[0], g[1], len(pts), " ".join("%r %r" % q for q in pts)))
+    rcr, orr, err_, srr = vf.sh([rdrv], input="\n".join(rlines) + "\n", timeout=900); c.step("correspond:impl-rrt", rdrv, srr, rcr == 0)
+    rcq, oq, eq, sq = vf.sh([model, "rrt"], input="\n".join(rlines) + "\n", timeout=900); c.step("correspond:model-rrt", model + " rrt", sq, rcq == 0)
+    il, ml = [l for l in orr.split("\n") if l.startswith("rrt ")], [l for l in oq.split("\n") if l.startswith("rrt ")]
+    nrrt_bad = 0; rrt_stats = collections.Counter()
+    def fl(h): return struct.unpack("<d", struct.pack("<Q", int(h, 16)))[0]
+    def canon_rrt(l):
+        parts = [x.strip() for x in l.split("|")]
+        if len(parts) >= 2 and parts[1].startswith("1 0"): parts[1] = "1 0 -"      # the difference of an exact solution is not recorded by the problem definition
+        return parts
+    def touches(k, a, b):
+        w, lo, hi = k
+        if (a[0] - w) * (b[0] - w) > 0.0: return False
+        if a[0] == b[0]: return (a[1] <= hi and lo <= b[1]) if a[1] <= b[1] else (b[1] <= hi and lo <= a[1])
+        t = (w - a[0]) / (b[0] - a[0]); y = a[1] + t * (b[1] - a[1]); return lo <= y <= hi
+    for k, rl in enumerate(rlines):
+        a = il[k] if k < len(il) else "<no output>"; b = ml[k] if k < len(ml) else "<no output>"
+        if canon_rrt(a) != canon_rrt(b):
+            nrrt_bad += 1; ndiff += 1
+            if first_diff is None or len(rl) < len(first_diff[0]): first_diff = (rl, "geometric::RRT: implementation '%s' RrtModel '%s'" % (a[:300], b[:300]))
+        # the statement on the implementation's own tree and report
+        try:
+            w = rl.split(); nw = int(w[7]); walls = [(float(w[8 + 3 * j]), float(w[9 + 3 * j]), float(w[10 + 3 * j])) for j in range(nw)]
+            o = 8 + 3 * nw; ns = int(w[o + 1]); starts = [(float(w[o + 2 + 2 * j]), float(w[o + 3 + 2 * j])) for j in range(ns)]
+            o = o + 2 + 2 * ns; goal = (float(w[o + 1]), float(w[o + 2])); thr = float(w[3])
+            parts = [x.strip() for x in a.split("|")]
+            nodes = [(fl(t.split()[0]), fl(t.split()[1]), int(t.split()[2])) for t in parts[0].split(";")[1:] if t.strip()]
+            bad = None
+            for j, (x, y, p) in enumerate(nodes):
+                if p < 0:
+                    if (x, y) not in starts: bad = "root %d is not a start state" % j
+                elif not (p < j) or any(touches(kk, nodes[p][:2], (x, y)) for kk in walls): bad = "tree motion %d -> %d crosses a wall (or parent index not earlier)" % (p, j)
+            rep = parts[1].split()
+            if rep[0] == "1":
+                path = [(fl(t.split()[0]), fl(t.split()[1])) for t in parts[2].split(";") if t.strip()]
+                edges = set((nodes[p][:2], (x, y)) for (x, y, p) in nodes if p >= 0)
+                if not path or path[0] not in starts: bad = "the reported path does not begin at a start state"
+                elif any((u, v) not in edges for u, v in zip(path, path[1:])): bad = "the reported path contains a motion that is not a tree motion"
+                elif rep[1] == "0" and not (math.dist(path[-1], goal) < thr): bad = "exact solution ends %r from the goal (threshold %r)" % (math.dist(path[-1], goal), thr)
+                elif rep[1] == "1" and abs(fl(rep[2]) - math.dist(path[-1], goal)) > 1e-12: bad = "approximate solution reports difference %r, its last state is %r from the goal" % (fl(rep[2]), math.dist(path[-1], goal))
+                rrt_stats["exact" if rep[1] == "0" else "approximate"] += 1
+            else: rrt_stats["none"] += 1
+            rrt_stats["nodes"] += len(nodes)
+            if bad:
+                npred += 1; failures["rrt-script"] += 1
+                if first_pred is None: first_pred = (rl, "geometric::RRT (scripted): " + bad)
+        except Exception as ex:
+            npred += 1; failures["rrt-script"] += 1
+            if first_pred is None: first_pred = (rl, "geometric::RRT (scripted): no observation (%s) %s" % (ex, a[:80]))
+    c.cov.update({"rrt_scripts": len(rlines), "rrt_disagreements": nrrt_bad, "rrt_reports": dict(rrt_stats)})
     c.cov["samples"] = jobs[:3]
-    c.cov["trusted_base"] += ["harness/eit_driver.cpp reaches EITstar::couldBeValid / isValid by re-declaring private as public for that header; extract/eit_driver.ml",
+    c.cov["trusted_base"] += ["harness/rrt_driver.cpp (scripted sampler, wall motion validator, reaches RRT::nn_ by re-declaring protected as public for that header) + extract/rrt_driver.ml (the same binary64 formulas for distance, steering, wall test, goal)",
+                             "harness/eit_driver.cpp reaches EITstar::couldBeValid / isValid by re-declaring private as public for that header; extract/eit_driver.ml",
                              "extraction (ExtrOcamlBasic) + extract/ledger_driver.ml; harness/planner_driver.cpp + planning_common.h (logging validity checker and motion validator, state numbering by exact coordinates, dense re-sampling of every path segment at 1/8 resolution length)"]
     c.assumptions += ["partial: soundness of the admission rule and of the library's path check is proved; that each planner's code only produces admissible reports is checked per run, not proved",
                       "validity depends on the first two coordinates only; wall-clock bounded runs are not bit-reproducible for anytime planners (the RUN line + seed is the replay)"]
@@ -242,7 +311,7 @@ def main():
         c.violation("implementation violates C01: %s on '%s'" % (msg, j), "# C01 replay: bin/check C01 --replay <this file>  (or: build/harness/planner_driver <the line>)\n%s\n" % j)
     elif first_diff:
         j, msg = first_diff
-        c.broken.append("correspondence C01 (planner reports vs LedgerModel.adjudicate): %s on '%s'" % (msg, j))
+        c.broken.append("correspondence C01 (planner reports vs LedgerModel.adjudicate; EIT* edge validation vs EitModel; geometric::RRT vs RrtModel): %s on '%s'" % (msg, j))
     c.finish()
 
 
